@@ -42,12 +42,13 @@ StateKept(pre, o) ==
 \* verdict on one reload step
 Judge(F, H, G, pre, arg, o, s1on) ==
   LET post == PostClause(pre.ctx, pre.n, F, H, G, arg, o.ctx, s1on)
+      code == Matches(Mechanism(F, H, G, pre.ctx, pre.n, arg, CodeFlags), o)     \* the common case, tried first
       ex   == Explaining(F, H, G, pre, arg, o)
       why  == IF ex = {} THEN <<"unexplained">> ELSE SetToSeq(Smallest(ex))
   IN IF post # "ok" THEN [clause |-> post, why |-> why]
      ELSE IF ~StateKept(pre, o) THEN [clause |-> "untouched-state-lost", why |-> why]
-     ELSE IF ex = {} THEN [clause |-> "mechanism-mismatch", why |-> why]
-     ELSE [clause |-> "ok", why |-> why]
+     ELSE IF ~code /\ ex = {} THEN [clause |-> "mechanism-mismatch", why |-> why]
+     ELSE [clause |-> "ok", why |-> <<>>]
 
 \* fold over the steps; acc = [F, H, G, pre, s1on, fails, reloads]
 RECURSIVE Run(_, _, _)
@@ -57,7 +58,7 @@ Run(c, k, acc) ==
        IF st.a = "reload"
        THEN LET o == ConvObs(st.obs)
                 j == Judge(acc.F, acc.H, acc.G, acc.pre, st.arg, o, acc.s1on)
-                exp == Mechanism(acc.F, acc.H, acc.G, acc.pre.ctx, acc.pre.n, st.arg, CodeFlags)
+                exp == Mechanism(acc.F, acc.H, acc.G, acc.pre.ctx, acc.pre.n, st.arg, CodeFlags)      \* only evaluated for a rejection
             IN Run(c, k + 1, [acc EXCEPT !.pre = o,
                                         !.s1on = IF st.arg = "*" THEN TRUE ELSE (@ /\ j.clause # "changed-not-discarded"),
                                         !.skipped = @ + (IF acc.s1on \/ st.arg \notin {"", "*"} THEN 0 ELSE 1),
